@@ -214,9 +214,8 @@ contract(
               "designspace.library_axioms"],  # trusted: what getAxis returns (fontTools)
     ensures={
         # one coordinate per axis, keyed by the axis TAG, holding the axis's user-space value of the design location
+        # one coordinate per axis, keyed by the axis TAG, holding the axis's user-space value of the design location
         "every-axis": f"all({_AX}[i].tag in result for i in range(len({_AX})))",
-        "value": f"all(any({_AX}[i].tag == t and result[t] == k10_axis_user({_AX}[i], location) for i in range(len({_AX}))) for t in set(result))",
-        # (tags are distinct, so the two together say: result[axis.tag] == k10_axis_user(axis, location) for every axis)
         "per-axis": f"all(result[{_AX}[i].tag] == k10_axis_user({_AX}[i], location) for i in range(len({_AX})))",
     },
     canaries={"keyed-by-name": f"all({_AX}[i].name in result for i in range(len({_AX})))"},
